@@ -68,6 +68,11 @@ def same(obs, exp):
         return obs["res"] == "ok" and obs["verify"] == "ok" and obs["ret"] == exp["ret"]
     if exp["res"] == "err:CircuitUnsatisfied":
         return obs["res"] == "err:CircuitUnsatisfied"
+    if exp["res"] == "err:JubJubScalarMalformed":
+        # the scalar is a WITNESS value: C14 demands unsatisfiability for a non-canonical scalar,
+        # not the host-side guard; an entry point that emits the rows and leaves the rejection to
+        # the in-circuit canonicality check still has the property (recorded as drift)
+        return obs["res"].startswith("err:")
     # an entry point must return AN error (and have appended nothing); which variant it
     # returns is not part of the properties: a different class is recorded as drift
     return obs["res"].startswith("err:") and obs["res"] != "err:CircuitUnsatisfied"
